@@ -55,6 +55,10 @@ class Violation(Exception):
         self.node = node
 
 
+class _Thrown(Exception):
+    pass
+
+
 class _Ret(Exception):
     def __init__(self, v):
         Exception.__init__(self)
@@ -1011,7 +1015,7 @@ class Interp:
         elif k == 'try':
             self.run(n.get('body'), fr)              # normal paths only: handlers are C09's
         elif k == 'throw':
-            raise Infeasible()
+            raise _Thrown()
         elif k in ('for', 'while'):
             self.loop(n, fr)
         elif k in A.LOOPS:
@@ -1192,6 +1196,10 @@ def spec_of(f, E):
         if nm == 'operator=' and len(ps) == 1 and isil(ps[0]):
             return 'assign_range', ['ilist']
         return None
+    if nm in ('end', 'cend', 'data', 'empty', 'front', 'back', 'rbegin', 'rend', 'crbegin', 'crend') and n == 0:
+        return 'acc_' + {'cend': 'end', 'crbegin': 'rbegin', 'crend': 'rend'}.get(nm, nm), []
+    if nm in ('operator[]', 'at') and n == 1 and isint(ps[0]):
+        return 'acc_' + ('index' if nm == 'operator[]' else 'at'), ['index']
     if nm == 'insert':
         if n == 2 and isptr(ps[0]) and isil(ps[1]):
             return 'insert_range', ['pos', 'ilist']
@@ -1279,10 +1287,15 @@ def expected(kind, m):
         return [(Z, N_, old()), (N_, ladd(N_, C_), VAL)], ladd(N_, C_)
     if kind == 'append_range':
         return [(Z, N_, old()), (N_, ladd(N_, D_), new(N_))], ladd(N_, D_)
+    if kind == 'acc':
+        return [(Z, N_, old())], N_
     raise Unknown('no specification for ' + kind)
 
 
 SPEC_TEXT = {
+    'acc_end': 'begin() + size()', 'acc_rbegin': 'reverse iterator of end()', 'acc_rend': 'reverse iterator of begin()', 'acc_data': 'begin()',
+    'acc_empty': 'size() == 0', 'acc_front': 'the element at index 0', 'acc_back': 'the element at index size()-1',
+    'acc_index': 'the element at the index', 'acc_at': 'the element at the index, out_of_range exactly when index >= size()',
     'ctor_vinit': 'C value-initialised elements, size C', 'ctor_n': 'C copies of the value, size C',
     'ctor_range': 'the D elements of the range / of the other vector in order, size D',
     'insert_one': 'old [0,P) . the new element at P . old shifted by one [P+1,N+1), size N+1',
@@ -1324,6 +1337,30 @@ def check_post(m, kind):
             raise Violation('on return slots [%s, %s) beyond size() still hold objects (%s): never destroyed' % (fmt(a), fmt(b), cfmt(got)), None)
 
 
+def check_access(m, kind, res):
+    """Accessors: the position / element designated, as std::vector; the storage is untouched."""
+    I_ = {'I': 1}
+    want = {'acc_end': ('ptr', N_), 'acc_rbegin': ('ptr', N_), 'acc_rend': ('ptr', {}), 'acc_data': ('ptr', {}), 'acc_front': ('elem', {}),
+            'acc_back': ('elem', ladd(N_, lconst(-1))), 'acc_index': ('elem', I_), 'acc_at': ('elem', I_)}.get(kind)
+    if kind == 'acc_empty':
+        if res[0] != 'int' or set(res[1]) - {''}:
+            raise Unknown('empty() returns a value the interpreter does not follow')
+        if bool(res[1].get('', 0)) and m.feasible([ladd(N_, lconst(-1))]):
+            raise Violation('empty() returns true although size() may be positive', None)
+        if not bool(res[1].get('', 0)) and m.feasible([lneg(N_)]):
+            raise Violation('empty() returns false although size() may be zero', None)
+    else:
+        if res[0] != want[0] or not m.entails_eq(res[1], want[1]):
+            raise Violation('designates %s %s; std::vector designates %s %s' % ('the element at index' if res[0] == 'elem' else 'the position' if res[0] == 'ptr' else 'a value',
+                                                                             fmt(res[1]) if len(res) > 1 and isinstance(res[1], dict) else '?',
+                                                                             'the element at index' if want[0] == 'elem' else 'the position', fmt(want[1])), None)
+        if kind == 'acc_at' and m.feasible([ladd({'I': 1}, N_, -1)]):
+            raise Violation('at() returns a reference although the index may be >= size() (no exception)', None)
+    for a, b, c in m.pieces({}, None):
+        pass
+    check_post(m, 'acc')
+
+
 def explore(prog, f, E, kind, roles, limit=4000):
     """Walks every path of the entry point.  Returns (number of paths, violation or None)."""
     stack, paths = [[]], 0
@@ -1359,17 +1396,32 @@ def explore(prog, f, E, kind, roles, limit=4000):
             elif r == 'other':
                 fr.env[('p', i)] = ('other',)
                 m.cons.append(dict(D_))
+            elif r == 'index':
+                fr.env[('p', i)] = ('int', {'I': 1})
+                m.cons.append({'I': 1})
+                if kind == 'acc_index':
+                    m.cons.append(ladd(ladd(N_, {'I': 1}, -1), lconst(-1)))      # precondition of operator[]: idx < size()
         if kind == 'pop':
             m.cons.append(ladd(N_, lconst(-1)))
         if kind.startswith('ctor_'):
             m.cons.append(lneg(N_))                       # a vector under construction is empty
+        if kind in ('acc_front', 'acc_back'):
+            m.cons.append(ladd(N_, lconst(-1)))            # precondition: not empty
         ip = Interp(m)
         try:
+            res = TOP
             try:
                 ip.run(f['body'], fr)
-            except _Ret:
-                pass
-            check_post(m, kind)
+            except _Ret as r_:
+                res = r_.v
+            except _Thrown:
+                if kind == 'acc_at' and m.feasible([ladd(ladd(N_, {'I': 1}, -1), lconst(-1))]):
+                    raise Violation('throws although the index may be smaller than size()', None)
+                raise Infeasible()
+            if kind.startswith('acc_'):
+                check_access(m, kind, res)
+            else:
+                check_post(m, kind)
             paths += 1
         except Split as s:
             for i in range(s.k):
